@@ -4613,3 +4613,195 @@ twin('C04-twin-census-over-sorted-views', 'C04',
        "        for pth in sorted(\n"
        "                this_census.keys() & precompute_to_ref.keys()):\n"
        "            if pth_max is None or this_census[pth] > n_max:\n")])
+
+# ----------------------------------------------------------------------
+# round 15
+# ----------------------------------------------------------------------
+twin('C04-twin-mask-merge-in-list-order', 'C04',
+     'the p-value masks are joined in the order of the list, which is '
+     'built in dispatch order',
+     [(_PM, "        for min_row in idx_values:\n"
+       "            src_path = idx_to_path[min_row]\n",
+       "        for src_path in src_path_list:\n")])
+twin('C04-twin-mask-files-collected-on-completion', 'C04',
+     'the p-value mask files are listed as their workers finish; the '
+     'merge still sorts them by first row',
+     [(_PM, "    process_dict = {}\n    tmp_path_list = []\n"
+       "    n_pairs = len(idx_to_pair)\n",
+       "    process_dict = {}\n    tmp_path_lookup = {}\n"
+       "    tmp_path_list = []\n    n_pairs = len(idx_to_pair)\n"),
+      (_PM, "        tmp_path_list.append(tmp_path)\n\n"
+       "        this_idx_values = idx_values[col0:col1]\n",
+       "        tmp_path_lookup[col0] = tmp_path\n\n"
+       "        this_idx_values = idx_values[col0:col1]\n"),
+      (_PM, "    while len(process_dict) > 0:\n"
+       "        n0 = len(process_dict)\n"
+       "        process_dict = winnow_process_dict(process_dict)\n"
+       "        n1 = len(process_dict)\n"
+       "        if n1 < n0:\n",
+       "    while len(process_dict) > 0:\n"
+       "        n0 = len(process_dict)\n"
+       "        process_dict = winnow_process_dict(process_dict)\n"
+       "        n1 = len(process_dict)\n"
+       "        done = [k for k in tmp_path_lookup "
+       "if k not in process_dict]\n"
+       "        tmp_path_list += [tmp_path_lookup.pop(k) for k in done]\n"
+       "        if n1 < n0:\n")])
+mutant('C04-mask-files-collected-on-completion-unsorted', 'C04',
+       'the p-value mask files are listed as their workers finish and '
+       'joined in that order',
+       [(_PM, "    process_dict = {}\n    tmp_path_list = []\n"
+         "    n_pairs = len(idx_to_pair)\n",
+         "    process_dict = {}\n    tmp_path_lookup = {}\n"
+         "    tmp_path_list = []\n    n_pairs = len(idx_to_pair)\n"),
+        (_PM, "        tmp_path_list.append(tmp_path)\n\n"
+         "        this_idx_values = idx_values[col0:col1]\n",
+         "        tmp_path_lookup[col0] = tmp_path\n\n"
+         "        this_idx_values = idx_values[col0:col1]\n"),
+        (_PM, "    while len(process_dict) > 0:\n"
+         "        n0 = len(process_dict)\n"
+         "        process_dict = winnow_process_dict(process_dict)\n"
+         "        n1 = len(process_dict)\n"
+         "        if n1 < n0:\n",
+         "    while len(process_dict) > 0:\n"
+         "        n0 = len(process_dict)\n"
+         "        process_dict = winnow_process_dict(process_dict)\n"
+         "        n1 = len(process_dict)\n"
+         "        done = [k for k in tmp_path_lookup "
+         "if k not in process_dict]\n"
+         "        tmp_path_list.extend(tmp_path_lookup.pop(k) "
+         "for k in done)\n"
+         "        if n1 < n0:\n"),
+        (_PM, "        for min_row in idx_values:\n"
+         "            src_path = idx_to_path[min_row]\n",
+         "        for src_path in src_path_list:\n")],
+       'R-TAINT', 'SCHED')
+mutant('C11-qdiff-denominator-patched-through-alias', 'C11',
+       'the q-score denominator is the q1 array itself, patched in place',
+       [(_SCU, "    denom = np.where(pij_1 > pij_2, pij_1, pij_2)\n"
+         "    denom = np.where(denom > 0.0, denom, 1.0)\n",
+         "    denom = q1_score\n"
+         "    denom[denom == 0.0] = 1.0\n")],
+       'R-ALIAS/edited-through-alias', 'q_score_from_pij')
+twin('C11-twin-qdiff-denominator-copied', 'C11',
+     'the q-score denominator is a copy of the q1 array, patched in place',
+     [(_SCU, "    denom = np.where(pij_1 > pij_2, pij_1, pij_2)\n"
+       "    denom = np.where(denom > 0.0, denom, 1.0)\n",
+       "    denom = np.copy(q1_score)\n"
+       "    denom[denom <= 0.0] = 1.0\n")])
+mutant('C16-dispatch-leaves-tolerance-to-dense-helper', 'C16',
+       'is_x_integers leaves the tolerance of the dense helper to its '
+       'default',
+       [(_VU, "        return _is_dense_x_integers(\n"
+         "            h5ad_path=h5ad_path,\n"
+         "            eps=1.0e-10,\n",
+         "        return _is_dense_x_integers(\n"
+         "            h5ad_path=h5ad_path,\n")],
+       'R-AGREE/sibling-defaults', 'is_x_integers')
+twin('C16-twin-dispatch-tolerance-by-name', 'C16',
+     'is_x_integers binds the tolerance of both helpers from one local',
+     [(_VU, "    encoding_type = attrs['encoding-type']\n\n"
+       "    if encoding_type == 'array':\n"
+       "        return _is_dense_x_integers(\n"
+       "            h5ad_path=h5ad_path,\n"
+       "            eps=1.0e-10,\n",
+       "    encoding_type = attrs['encoding-type']\n"
+       "    tolerance = 1.0e-10\n\n"
+       "    if encoding_type == 'array':\n"
+       "        return _is_dense_x_integers(\n"
+       "            h5ad_path=h5ad_path,\n"
+       "            eps=tolerance,\n")])
+mutant('C20-missing-frame-message-with-repr', 'C20',
+       'read_df_from_h5ad reports a missing frame with the repr of the '
+       'path',
+       [(_AU, "    with h5py.File(h5ad_path, 'r') as src:\n"
+         "        return read_elem(src[df_name])\n",
+         "    with h5py.File(h5ad_path, 'r') as src:\n"
+         "        if df_name not in src:\n"
+         "            raise RuntimeError(\n"
+         "                f\"no {df_name} in {h5ad_path!r}\")\n"
+         "        return read_elem(src[df_name])\n")],
+       'R-ROLE/path-in-message/rendered-as-text', 'read_df_from_h5ad')
+twin('C20-twin-missing-frame-message-plain', 'C20',
+     'read_df_from_h5ad reports a missing frame with the path as text',
+     [(_AU, "    with h5py.File(h5ad_path, 'r') as src:\n"
+       "        return read_elem(src[df_name])\n",
+       "    with h5py.File(h5ad_path, 'r') as src:\n"
+       "        if df_name not in src:\n"
+       "            raise RuntimeError(\n"
+       "                f\"no {df_name} in {h5ad_path}\")\n"
+       "        return read_elem(src[df_name])\n")])
+_PU = P+'diff_exp/precompute_utils.py'
+mutant('C10-census-compares-hierarchies-only', 'C10',
+       'the leaf census accepts files whose hierarchies agree',
+       [(_PU, "            if not taxonomy_tree.is_equal_to(this_tree):\n",
+         "            if taxonomy_tree.hierarchy != this_tree.hierarchy:\n")],
+       'R-GUARD/one-tree-per-merge', 'run_leaf_census')
+twin('C10-twin-census-compares-trees-with-ne', 'C10',
+     'the leaf census compares the two trees through a named verdict',
+     [(_PU, "            if not taxonomy_tree.is_equal_to(this_tree):\n",
+       "            same_tree = taxonomy_tree.is_equal_to(this_tree)\n"
+       "            if not same_tree:\n")])
+_TP = P+'diff_exp/truncate_precompute.py'
+mutant('C09-truncation-rows-by-tree-order', 'C09',
+       'the truncation takes the rows of the input in the order the tree '
+       'lists its leaves',
+       [(_TP, "            old_leaf_to_row = json.loads(\n"
+         "                src['cluster_to_row'][()].decode('utf-8'))\n",
+         "            old_leaf_to_row = {\n"
+         "                leaf: ii for ii, leaf in\n"
+         "                enumerate(old_tree.all_leaves)}\n")],
+       'R-PROV/rows-through-file-table', 'old_leaf_to_row')
+twin('C09-twin-truncation-rows-read-in-two-steps', 'C09',
+     'the truncation reads the row table of the input in two steps',
+     [(_TP, "            old_leaf_to_row = json.loads(\n"
+       "                src['cluster_to_row'][()].decode('utf-8'))\n",
+       "            row_table = src['cluster_to_row'][()]\n"
+       "            old_leaf_to_row = json.loads(\n"
+       "                row_table.decode('utf-8'))\n")])
+mutant('C17-single-marker-falls-back-on-union', 'C17',
+       'a parent with one reference marker is voted on with every marker '
+       'of the cache',
+       [(_MT, "        all_ref_identifiers = json.loads(\n",
+         "        if len(reference_markers) == 1 \\\n"
+         "                and 'all_reference_markers' in in_file:\n"
+         "            reference_markers = "
+         "in_file['all_reference_markers'][()]\n"
+         "        all_ref_identifiers = json.loads(\n")],
+       'R-PROV/genes-of-this-parent', 'assemble_query_data')
+mutant('C07-query-columns-by-reference-rank', 'C07',
+       'the query columns of a parent are gathered by the rank of its '
+       'markers in the reference list',
+       [(_MT, "    query_data = full_query_data.downsample_genes(\n"
+         "        selected_genes=query_markers)\n",
+         "    col_idx = np.argsort(np.argsort(reference_markers))\n"
+         "    query_data = CellByGeneMatrix(\n"
+         "        data=full_query_data.data[:, col_idx],\n"
+         "        gene_identifiers=query_markers,\n"
+         "        normalization=full_query_data.normalization,\n"
+         "        cell_identifiers=full_query_data.cell_identifiers)\n")],
+       'R-ROLE/columns-and-names-together', 'assemble_query_data')
+twin('C07-twin-query-columns-by-own-lookup', 'C07',
+     'the query columns of a parent are gathered through the matrix\'s own '
+     'name lookup',
+     [(_MT, "    query_data = full_query_data.downsample_genes(\n"
+       "        selected_genes=query_markers)\n",
+       "    col_idx = np.array(\n"
+       "        [full_query_data.gene_to_col[g] for g in query_markers])\n"
+       "    query_data = CellByGeneMatrix(\n"
+       "        data=full_query_data.data[:, col_idx],\n"
+       "        gene_identifiers=query_markers,\n"
+       "        normalization=full_query_data.normalization,\n"
+       "        cell_identifiers=full_query_data.cell_identifiers)\n")])
+mutant('C13-pivot-serial-path-for-one-worker', 'C13',
+       'pivot_csr_h5ad with one worker skips the pivot of the data and '
+       'index arrays',
+       [(_AU, "        transpose_sparse_matrix_on_disk_v2(\n"
+         "            h5_path=src_path,\n"
+         "            indices_tag='X/indices',\n",
+         "        if n_processors == 1:\n"
+         "            max_gb = max_gb / 2\n"
+         "        transpose_sparse_matrix_on_disk_v2(\n"
+         "            h5_path=src_path,\n"
+         "            indices_tag='X/indices',\n")],
+       'R-PROV/worker-count-special-case', 'pivot_csr_h5ad')
